@@ -289,7 +289,7 @@ fn main() {
     ctx.rule = "builder-made snapshots with 0..1024 items, 0..40 UUID types interleaved with ordinal ones, ids over 0..65535, item lengths 0..2000 words up to the 64 KiB limit; each is written to bytes and ints and read back, rebuilt from deltas (from empty and from a predecessor through a recycled builder), and the wire copy is recycled; non-trivial = at least one item; distinct = hash of the item map".into();
     ctx.assumptions = vec!["the predecessor/successor pair for the delta path is built through recycle so that both snapshots number their UUID types alike (what Storage::new_builder does)".into()];
     ctx.arm("c10", 1800.0);
-    let n = ctx.volume(1_200, 60_000, 3, 100);
+    let n = ctx.volume(2_500, 60_000, 3, 100);
     ctx.run_cases("roundtrip", n, |ctx, _i, rng| one(ctx, rng));
     ctx.disarm();
     ctx.finish();
